@@ -443,6 +443,14 @@ def m_str_bytes(eng, m, args, dest_ts, st, where):
     return It('src', v, bv(0, 64)) if m.group(1) == 'bytes' else v
 
 
+@model('String::as_bytes / as_str on an ordered string token', r'^(?:String::as_bytes|String::as_str|core::str::<impl str>::as_bytes|<String as Deref>::deref|<String as AsRef<(?:str|\[u8\])>>::as_ref)$')
+def m_token_bytes(eng, m, args, dest_ts, st, where):
+    v = deref(eng, st, args[0])
+    if not isinstance(v, Sc) or z3.is_bool(v.t):
+        return NotImplemented
+    return v            # the token stands for the content; only comparisons can observe it (generic_cmp / generic_eq on `[u8]`)
+
+
 @model('Index<usize> for Vec / slices', r'^<(?:Vec<.+>|\[.+\]) as Index(?:Mut)?<usize>>::index(?:_mut)?$')
 def m_index(eng, m, args, dest_ts, st, where):
     v = deref(eng, st, args[0])
